@@ -350,6 +350,12 @@ class sqlmeta(with_metaclass(declarative.DeclarativeMeta, object)):
                 "The class %s.%s already has a variable or method %r, "
                 "you cannot add the column %r" % (
                     soClass.__module__, soClass.__name__, name, name))
+        if changeSchema:
+            # Alter the table first: if the database refuses the new
+            # column the class must not end up with a column the
+            # table does not have.
+            conn = connection or soClass._connection
+            conn.addColumn(sqlmeta.table, column)
         sqlmeta.columnDefinitions[name] = columnDef
         sqlmeta.columns[name] = column
         # A stable-ordered version of the list...
@@ -466,10 +472,6 @@ class sqlmeta(with_metaclass(declarative.DeclarativeMeta, object)):
                 'cls._SO_fetchAlternateID(%s, %s, val, connection=connection)'
                 % (repr(column.name), repr(column.dbName)))
             setattr(soClass, column.alternateMethodName, classmethod(func))
-
-        if changeSchema:
-            conn = connection or soClass._connection
-            conn.addColumn(sqlmeta.table, column)
 
         if soClass._SO_finishedClassCreation:
             makeProperties(soClass)
